@@ -134,3 +134,34 @@ Lemma src_closers_in_order :
   ok_prog (channel_closer (path_of true shape_Channel_exit)) = true /\
   ok_prog (channel_closer (path_of false shape_Channel_Empty)) = true.
 Proof. repeat split; vm_compute; reflexivity. Qed.
+
+(* ---- nobody else moves messages ----
+   gen/CoreShape.v's core_touches lists EVERY function of package nsqd that calls one of the
+   pop / push / put primitives.  Every one that both pops and pushes is a protocol mover
+   (checked above); the rest are: the publish entry points (movers, above), the primitives'
+   own wrappers, the closers' flushes, FIN (pops and keeps: the message is finished), the two
+   pumps, and StartInFlightTimeout / PutMessageDeferred, which push without the lock - the
+   first is K3, the second is only called by the topic pump, which Topic.exit waits for before
+   it closes the channels. *)
+Definition mem_s (x : string) (l : list string) : bool := existsb (String.eqb x) l.
+Definition pops_of (calls : list string) : bool :=
+  existsb (fun c => mem_s c ["popInFlightMessage"; "popDeferredMessage"]) calls.
+Definition pushes_of (calls : list string) : bool :=
+  existsb (fun c => mem_s c ["pushInFlightMessage"; "pushDeferredMessage"; "addToInFlightPQ"; "addToDeferredPQ";
+                             "put"; "StartDeferredTimeout"; "StartInFlightTimeout"]) calls.
+Definition shape_named (n : string) : list string :=
+  match find (fun e => fst e =? n) core_shapes with Some e => snd e | None => [] end.
+
+Lemma src_every_pop_and_push_is_a_protocol_mover :
+  forallb (fun e => negb (pops_of (snd e) && pushes_of (snd e)) || channel_mover (shape_named (fst e))) core_touches = true.
+Proof. vm_compute. reflexivity. Qed.
+
+Definition expected_touchers : list string :=
+  [ "Channel_FinishMessage"; "Channel_PutMessage"; "Channel_PutMessageDeferred"; "Channel_RequeueMessage";
+    "Channel_StartDeferredTimeout"; "Channel_StartInFlightTimeout"; "Channel_TouchMessage"; "Channel_flush";
+    "Channel_processDeferredQueue"; "Channel_processInFlightQueue"; "Channel_put";
+    "Topic_PutMessage"; "Topic_PutMessages"; "Topic_flush"; "Topic_messagePump"; "Topic_put";
+    "httpServer_doMPUB"; "httpServer_doPUB"; "protocolV2_DPUB"; "protocolV2_MPUB"; "protocolV2_PUB";
+    "protocolV2_messagePump" ].
+Lemma src_who_touches_messages : map fst core_touches = expected_touchers.
+Proof. vm_compute. reflexivity. Qed.
